@@ -31,10 +31,10 @@ from jsast import escape_line
 
 PROP = "C19"
 TRUSTED = [
-    "Coq 8.16.1 kernel (no native_compute); theorems are about the Gallina model coq/C19/Model_C19.v at TOKEN level",
+    "Coq 8.16.1 kernel (no native_compute); theorems are about the Gallina model coq/C19/Model_C19.v (token-level printer/parser) and coq/C19/Deep_Lex_C19.v (lexer + renderer: text level for the token classes the printer emits)",
     "model = hand transliteration of boa's printer (core/ast/src/**: ToInternedString/ToIndentedString) and parser "
     "(core/parser/src/parser/{expression,statement}/**) for the fragment: tied to the code only by the correspondence below",
-    "not in any theorem: lexing (text <-> tokens), ASI / line terminators, templates, regex re-lexing, strict mode, early errors; "
+    "not in any theorem: lexing outside the modelled token classes (comments, regex, templates, non-integer numerals, other escapes, non-ASCII), boa's layout (checked per run to be a good_layout), ASI / line terminators, templates, regex re-lexing, strict mode, early errors; "
     "boa's own parser termination (exercised, not proved)",
     "extraction (ExtrOcamlBasic only) + ocaml/C19/c19_driver.ml (S-expression reader/printer, token words)",
     "gen/c19_gen.py (generator, independent JS tokenizer used to compare printed text layout-insensitively), gen/progen.py",
@@ -109,6 +109,25 @@ class Tools:
             if len(f) >= 4:
                 res[int(f[0])] = (f[1], f[2], f[3])
         return [res.get(i) for i in range(len(texts))]
+
+
+def unwire(w):
+    """wire-escaped text (model driver output) -> str"""
+    out = []
+    i = 0
+    while i < len(w):
+        if w[i] == "\\" and i + 1 < len(w):
+            e = w[i + 1]
+            if e == "u" and i + 6 <= len(w):
+                out.append(chr(int(w[i + 2:i + 6], 16)))
+                i += 6
+                continue
+            out.append({"n": "\n", "r": "\r", "t": "\t"}.get(e, e))
+            i += 2
+        else:
+            out.append(w[i])
+            i += 1
+    return "".join(out)
 
 
 def label_of(feats):
@@ -265,6 +284,13 @@ def model_stream(run, ck, n):
     hs = ck.tools.rt([c["text"] for c in cases], dump=True)
     lines = ["P %d %s" % (i, c["sexp"]) for i, c in enumerate(cases)]
     lines += ["T t%d %s" % (i, " ".join(G.js_tokens(c["text"]))) for i, c in enumerate(cases)]
+    # text level (deepening round): boa's printed text and the generator's own text through the extracted lexer
+    for i, c in enumerate(cases):
+        d = hs[i]
+        if d.get("st") == "ok" and d.get("p1") is not None and d["p1"].isascii():
+            lines.append("X x%d %s\t%s" % (i, c["sexp"], escape_line(d["p1"])))
+        if c["variant"] in ("canon", "style") and c["text"].isascii():
+            lines.append("X g%d %s\t%s" % (i, c["sexp"], escape_line(c["text"])))
     ms = ck.tools.model(lines)
     pairs = []
     for i, c in enumerate(cases):
@@ -319,10 +345,89 @@ def model_stream(run, ck, n):
                 continue
         else:
             ck.stats["printer-tokens-equal"] += 1
+        # text-level tie: the extracted lexer on boa's printed text gives the model's printed tokens, boa's white space is a
+        # layout in the sense of theorem lex_layout (token texts byte for byte, white space wherever needs_sep demands),
+        # parse_text of it is the AST; the same for the model's own rendering (instance of lex_render / parse_print_text)
+        mx = ms.get("x%d" % i)
+        if mx is not None and len(mx) >= 6:
+            ck.stats["text-cases"] += 1
+            if i < 1:
+                run.sample({"stream": "text", "boa_printed": d["p1"][:200], "model_render": mx[6][:200] if len(mx) > 6 else None,
+                            "lex(boa)=tokens": mx[2], "parse_text(boa)=ast": mx[3], "layout": mx[4]})
+            if mx[1] != "1":
+                ck.stats["text-unprintable"] += 1
+            elif "num-dot" in d.get("feats", []) and (mx[2], mx[3], mx[4]) != ("eq", "eq", "ok"):
+                ck.stats["text-differs(num-dot)"] += 1
+            elif (mx[2], mx[3], mx[4], mx[5]) != ("eq", "eq", "ok", "ok"):
+                ck.violation("C19-text-level-differs", {"kind": "correspondence-broken", "input": c["text"], "printed": d["p1"],
+                             "model_output": {"printable": mx[1], "lex(printed)=print_tokens": mx[2], "parse_text(printed)=ast": mx[3],
+                                              "layout": mx[4], "self": mx[5], "render": mx[6] if len(mx) > 6 else None},
+                             "obligation": "boa's printed text is a layout of the model's printed tokens and lexes/parses back in the model"},
+                             found_input=False)
+            else:
+                ck.stats["text-equal"] += 1
+        mg = ms.get("g%d" % i)
+        if mg is not None and len(mg) >= 6 and mg[1] == "1":
+            ck.stats["gentext-cases"] += 1
+            if (mg[3], mg[5]) != ("eq", "ok"):
+                ck.violation("C19-text-level-differs", {"kind": "correspondence-broken", "input": c["text"],
+                             "model_output": {"parse_text(text)=ast": mg[3], "self": mg[5]},
+                             "obligation": "parse_text (model lexer + model parser) of the generator's text is the generator's AST"},
+                             found_input=False)
+            else:
+                ck.stats["gentext-equal"] += 1
         if ck.roundtrip(c["text"], d, "model-stream"):
             pairs.append((c["text"], d["p1"]))
+    render_stream(run, ck, cases, hs)
     ck.traces(pairs, "model-stream", G.PRELUDE)
     return cases, hs
+
+
+def render_stream(run, ck, cases, hs):
+    """the model's minimal rendering (one blank exactly where needs_sep demands: `a- -b`, `1 .x`) against boa's real lexer and
+    parser: boa's parser returns the AST for render(print_tokens ast); boa's lexer and the model lexer give the same token
+    words on the rendered and on boa's printed text (texts containing `/` are not sent to the bare lexer, whose default goal
+    symbol reads `/` as a regular expression)"""
+    rs = ck.tools.model(["R %d %s" % (i, c["sexp"]) for i, c in enumerate(cases)])
+    texts, idx = [], []
+    for i, c in enumerate(cases):
+        r = rs.get(str(i))
+        if r is not None and r[1] == "ok":
+            texts.append(unwire(r[2]))
+            idx.append(i)
+    hr = ck.tools.rt(texts, dump=True)
+    lex_in = []
+    for k, i in enumerate(idx):
+        d = hr[k]
+        ck.stats["render-cases"] += 1
+        run.count(("render", texts[k]))
+        if d.get("st") != "ok":
+            ck.violation("C19-render-rejected", {"kind": "correspondence-broken", "input": texts[k], "impl_output": d, "model_output": cases[i]["sexp"][:400],
+                         "obligation": "boa parses the model's minimal rendering of a parser-shaped program (parse_print_text on the implementation)"},
+                         found_input=False)
+        elif d.get("sexp") is not None and d["sexp"] != cases[i]["sexp"]:
+            ck.violation("C19-render-ast-differs", {"kind": "correspondence-broken", "input": texts[k], "impl_output": d["sexp"], "model_output": cases[i]["sexp"],
+                         "obligation": "boa's AST of the model's minimal rendering = the AST (parse_print_text on the implementation)"}, found_input=False)
+        else:
+            ck.stats["render-ast-equal"] += 1
+        if "/" not in texts[k]:
+            lex_in.append(texts[k])
+        p1 = hs[i].get("p1")
+        if hs[i].get("st") == "ok" and p1 and "/" not in p1 and p1.isascii():
+            lex_in.append(p1)
+    if lex_in:
+        hb = ck.tools.rt(lex_in, cmd="lx")
+        ml = ck.tools.model(["L %d %s" % (k, escape_line(t)) for k, t in enumerate(lex_in)])
+        for k, t in enumerate(lex_in):
+            m = ml.get(str(k))
+            b = hb[k]
+            ck.stats["lexer-cases"] += 1
+            if m is None or m[1] != "ok" or b.get("st") != "ok" or b.get("words") != m[2]:
+                ck.violation("C19-lexer-differs", {"kind": "correspondence-broken", "input": t, "impl_output": b, "model_output": m,
+                             "obligation": "the model lexer and boa's lexer give the same token stream"}, found_input=False)
+            else:
+                ck.stats["lexer-equal"] += 1
+        run.sample({"stream": "lexer", "text": lex_in[0][:200], "boa_words": (hb[0].get("words") or "")[:200]})
 
 
 def wide_stream(run, ck, n):
